@@ -222,8 +222,10 @@ impl Monitor for C03 {
         let style = (idx / (17 * nl.len() as u64)) % 6;
         let sclass = SUFFIX[((idx / (17 * nl.len() as u64 * 6)) % 4) as usize];
         let rep = idx / (17 * nl.len() as u64 * 24);
-        let exact = rep % 2 == 0;
         let c = case(vi, n, &mut rng);
+        // NET at windows above 32 runs at f64 only: N^2 exact operations per update (which the exact
+        // scalar never frees) buy nothing where f64 itself computes signs and small integers exactly
+        let exact = rep % 2 == 0 && !(c.name == "NoiseEliminationTechnology" && c.n > 32);
         // magnitudes: up to 2^40 x the suffix at the exact scalar; moderate (x16) in f64 for the
         // normalised views, 2^40 for the value-like ones (their envelope scales with it)
         let huge = if exact || c.value_like { 1099511627776.0 } else { 16.0 };
